@@ -94,7 +94,7 @@ PROPS = {
         'standin': True,
     },
     'C10': {'functions': INFO_BUILD + SCHEMA_FNS, 'standin': True},
-    'C11': {'functions': INFO_BUILD + SCHEMA_FNS, 'standin': True},
+    'C11': {'functions': INFO_BUILD + SCHEMA_FNS + ['schema.SchemaParser.start_schema'], 'standin': True},
     'C12': {'functions': ['info.SectionType.getsectioninfo', 'info.AbstractType.getsubtype',
                           'info.AbstractType.hassubtype', 'info.AbstractType.isabstract',
                           'info.SectionType.isabstract', 'info.SectionType.gettype', 'loader.ConfigLoader.startSection',
@@ -118,7 +118,7 @@ PROPS = {
     'C17': {'functions': [CFG + 'start_section', CFG + 'end_section', CFG + 'handle_key_value', 'schemaless.Section.addValue', 'schemaless.Section.__init__',
                           'schemaless.Context.startSection', 'schemaless.Context.endSection',
                           'schemaless.Context.includeConfiguration', 'schemaless.Parser.handle_define'], 'standin': True},
-    'C18': {'functions': ['schema.SchemaParser.extendSchema', SP + 'loadComponent', 'url.urlnormalize', 'url.urldefrag', 'url.urljoin', 'loader.BaseLoader.isPath', 'loader.BaseLoader.normalizeURL', 'loader._url_from_file',
+    'C18': {'functions': ['schema.SchemaParser.extendSchema', 'schema.SchemaParser.start_schema', SP + 'loadComponent', 'url.urlnormalize', 'url.urldefrag', 'url.urljoin', 'loader.BaseLoader.isPath', 'loader.BaseLoader.normalizeURL', 'loader._url_from_file',
                           'loader.BaseLoader._raise_open_error', CFG + '__init__', CFG + 'handle_include'],
             'rx': ['rx:loader._pathsep_rx'], 'standin': True},
     'C19': {'functions': ['loader.Resource.__init__', 'loader.Resource.close', 'loader.Resource.__enter__',
